@@ -30,11 +30,12 @@ RECURSIVE Importable(_, _)
 Importable(dt, v) ==
   CASE dt.t = "double" -> IsNumber(v)
     [] dt.t \in {"int", "scaled"} -> v.k = "num"
-    [] dt.t = "blob"   -> v.k = "str" /\ v.b64 >= 0
+    [] dt.t = "blob"   -> v.k = "str" /\ v.b64 >= dt.minb /\ v.b64 <= dt.maxb
     [] dt.t = "enum"   -> v.k = "num" /\ \E i \in 1 .. Len(dt.mem) : dt.mem[i].val = v.n
-    [] dt.t = "string" -> v.k = "str"
+    [] dt.t = "string" -> v.k = "str" /\ dt.minc <= v.len /\ v.len <= dt.maxc /\ (dt.utf8 \/ v.ascii)
     [] dt.t = "bool"   -> v.k = "bool"
-    [] dt.t = "array"  -> v.k = "list" /\ \A i \in 1 .. Len(v.xs) : Importable(dt.el, v.xs[i])
+    [] dt.t = "array"  -> v.k = "list" /\ dt.minlen <= Len(v.xs) /\ Len(v.xs) <= dt.maxlen
+                          /\ \A i \in 1 .. Len(v.xs) : Importable(dt.el, v.xs[i])
     [] dt.t = "tuple"  -> v.k = "list" /\ Len(v.xs) = Len(dt.els) /\ \A i \in 1 .. Len(v.xs) : Importable(dt.els[i], v.xs[i])
     [] dt.t = "struct" -> v.k = "obj" /\ Keys(v) \subseteq MemberNames(dt)
                           /\ \A key \in Keys(v) : Importable(dt.mem[MemberDt(dt, key)].dt, ValOf(v, key))
@@ -193,8 +194,11 @@ EventsOf(c, o) ==
        real_ok |-> IF known /\ dt # NoDt /\ ~(req.act = "do" /\ req.payload = Null) THEN Validate(dt, req.payload, prev).ok ELSE TRUE,
        imp |-> TRUE,
        strict |-> isp /\ acc.hooks = <<>> /\ acc.lim.kind = "none" /\ acc.drv # "raise" /\ acc.dt.t # "limits",
-       upd |-> IF ~o.hassnap THEN <<>>
-               ELSE SetSeq({[mod |-> u.mod, name |-> u.name, v |-> u.v, imp |-> TRUE, err |-> FALSE] : u \in o.snap})]
+       upd |-> IF o.hassnap
+               THEN SetSeq({[mod |-> u.mod, name |-> u.name, v |-> u.v, imp |-> TRUE, err |-> (u.v = ErrVal)] : u \in o.snap})
+               ELSE IF o.upd # Null
+               THEN <<[mod |-> o.upd.mod, name |-> o.upd.name, v |-> o.upd.v, imp |-> TRUE, err |-> (o.upd.v = ErrVal)]>>
+               ELSE <<>>]
       : k \in (IF o.reply.ok THEN {"ok"} ELSE o.reply.cls)}
 DescriptionTrue ==
   [][\A e \in EventsOf(cache, last') : Judge(Described(shape), e) = "" /\ JudgeUpdates(Described(shape), e) = ""]_vars
